@@ -140,8 +140,56 @@ func init() {
 				c.Add("appends_in_place", inplN)
 				c.Add("histories_outside_domain_skipped", skipped)
 			})
+			// large shapes, sparsely: every pair of appends from a reduced source menu
+			type bshape struct{ t, C, P, S, L int }
+			var bigs []bshape
+			for _, t := range []int{dyn.Int8, dyn.Uint32, dyn.Float64, dyn.Int64} {
+				for C := 1; C <= 3; C++ {
+					for _, P := range []int{8, 40, 300} {
+						for _, w := range [][2]int{{0, 0}, {0, P / 2}, {1, P / 2}, {P / 2, P / 2}, {0, P}, {P - 1, 1}} {
+							bigs = append(bigs, bshape{t, C, P, w[0], w[1]})
+						}
+					}
+				}
+			}
+			c.ParallelFor(len(bigs), func(i int) {
+				sh := bigs[i]
+				menu := func(nviews int) [][]wop {
+					m := [][]wop{{{K: "append", V: 1, W: 1}}, {{K: "append", V: 1, W: 2}}}
+					for _, k := range []int{1, sh.P / 2, sh.P, 2 * sh.P} {
+						m = append(m, []wop{{K: "indep", V: 1, A: k}})
+					}
+					for _, w := range [][2]int{{0, 1}, {0, sh.P}, {sh.P - 1, sh.P}, {sh.P / 4, sh.P / 2}} {
+						m = append(m, []wop{{K: "slice", V: 0, A: w[0], B: w[1]}, {K: "append", V: 1, W: nviews}})
+					}
+					return m
+				}
+				var hist, trans int64
+				for _, a := range menu(3) {
+					nv := 3
+					for _, o := range a {
+						if o.K != "append" {
+							nv++
+						}
+					}
+					for _, b := range append(menu(nv), nil) {
+						cs := c03Case{Type: tn(sh.t), C: sh.C, P: sh.P, S: sh.S, L: sh.L, Ops: append(append([]wop{}, a...), b...)}
+						fs, ok, g, ip := c03Run(cs)
+						if !ok {
+							continue
+						}
+						hist++
+						trans += int64(g + ip)
+						c.Check(cs, true, fs)
+					}
+				}
+				c.Add("states", hist)
+				c.Add("transitions", trans)
+				c.Add("traces_validated_against_impl", hist)
+				c.Add("large_shape_histories", hist)
+			})
 			c.Sample(c03Case{Type: "int16", C: 2, P: 3, S: 1, L: 1, Ops: []wop{{K: "append", V: 1, W: 1}, {K: "indep", V: 1, A: 2}}})
-			c.Set("rule", fmt.Sprintf("13 element types x C in 1..3 x root of P<=%d frames x destination window (S,L) x every sequence of <=%d appends with source in {independent buffer of 0..P+2 frames, the destination itself, a second header over the destination's window, every other window of the root}; sequences whose source overlaps the region written are outside the property's domain and skipped; after every append every live view and every storage is compared with the views model, then every view is stamped in turn; non-trivial = at least one append ran", maxP, depth))
+			c.Set("rule", fmt.Sprintf("13 element types x C in 1..3 x root of P<=%d frames x destination window (S,L) x every sequence of <=%d appends with source in {independent buffer of 0..P+2 frames, the destination itself, a second header over the destination's window, every other window of the root}; sequences whose source overlaps the region written are outside the property's domain and skipped; after every append every live view and every storage is compared with the views model, then every view is stamped in turn; non-trivial = at least one append ran; plus every pair of appends from a reduced source menu on large roots (8, 40, 300 frames) for 4 element types", maxP, depth))
 			c.Assume("capacity chosen by Go's append on growth is an environment answer: only 'whole frames, >= length' is required", "what the spare capacity of freshly grown storage holds is not specified and is adopted")
 		},
 		RunCase: func(c *core.Ctx, raw json.RawMessage) []F {
